@@ -29,6 +29,7 @@ type SrcOblig struct {
 	Ms        int64    `json:"solver_ms"`
 	Bounded   bool     `json:"bounded,omitempty"`
 	worst     *Oblig
+	coverSat, coverUnsat, coverUnknown int
 }
 
 type Report struct {
@@ -61,14 +62,24 @@ func (e *Engine) report(id string, cfg *PropCfg, targets []*Target, files []stri
 		}
 		so.Ms += o.Ms
 		if o.Expect == "sat" {
+			// a vacuity cover holds when at least ONE of its instances is satisfiable (an individual explored path
+			// may be infeasible - pruning is incomplete - without the contract being vacuous)
 			switch o.Result {
 			case "sat":
+				so.coverSat++
 			case "unsat":
-				so.Result, so.worst = "error", o
-			default: // unknown: a cover that cannot be decided is not an error, it is noted
-				if so.Result == "discharged" {
-					so.Result = "cover-unknown"
-				}
+				so.coverUnsat++
+				so.worst = o
+			default:
+				so.coverUnknown++
+			}
+			switch {
+			case so.coverSat > 0:
+				so.Result = "discharged"
+			case so.coverUnknown > 0:
+				so.Result = "cover-unknown"
+			default:
+				so.Result = "error"
 			}
 			addOnce(&so.Backends, o.Solver)
 			continue
